@@ -36,34 +36,53 @@
    The LIST of sites is hand-made: a site the reading missed is not in it (the
    malformed stream and the PANIC observation of the harness are the net under
    it).  What Coq checks is the COVERAGE column of the listed sites, and only
-   for the two constructors of FIXED SHAPE:
+   for the two constructors below.  Both take the function that contains the
+   site as a FUNCTIONAL of the panicking operation, so that an entry cannot
+   be inhabited by an unrelated function or by a guard nobody establishes
+   (fourth audit, C1: the earlier shapes `CModel op w f pf` / `CLemma raw w
+   guard pf` did not relate f to op and left guard free - `fun _ => Err` and
+   `guard := False` type-checked; see the Fail tests at the end of
+   proofs/UntrustedPanicSitesTable.v):
 
-     CModel op w f pf   op : X -> outcome Y is the checked operation of
-                        model/Untrusted.v that stands for the Go expression
-                        (Bytes.slice, encode_point, ed25519_from_seed ...),
-                        w : exists x, op x = Panic  shows it CAN panic (it is a real
-                        check, not a total function); f : A -> outcome B is the
-                        model function that performs op behind the guard, and
-                        pf : forall a, f a <> Panic.   That f calls op is read off
-                        the model (not expressed in the type).
-     CLemma raw w guard pf   raw : A -> outcome B is the site transcribed AS
-                        WRITTEN with Go machine integers (model/UntrustedSites.v)
-                        WITHOUT its guard, w : exists a, raw a = Panic,
-                        guard : A -> Prop the condition the code establishes in
-                        front of it, pf : forall a, guard a -> raw a <> Panic.
+     CModel op w F reach f same pf
+        op : X -> outcome Y   the checked operation of the model standing for the
+                              Go expression (Bytes.slice, encode_point, ...)
+        w : exists x, op x = Panic        it CAN panic
+        F : (X -> outcome Y) -> A -> outcome B   the body of the model function
+                              with the operation abstracted
+        reach : exists a, F (fun _ => Panic) a = Panic   the operation is really
+                              REACHED: with an always-panicking operation in its
+                              place the function panics on some input
+        f : A -> outcome B    a function of model/Untrusted*.v, by name
+        same : forall a, F op a = f a     ... which IS that body over op
+        pf : forall a, f a <> Panic       and never panics: whatever guard stands
+                              in front of the operation inside F suffices
+     CLemma raw w F reach pf
+        raw : X -> outcome Y  the raw Go operation with machine integers
+                              (make_z, index_z, slice_z of model/UntrustedSites.v)
+        w : exists x, raw x = Panic
+        F : (X -> outcome Y) -> A -> outcome B   the statements AS WRITTEN in the
+                              Go function, the test in front of the expression
+                              included, over the raw operation
+        reach, pf : as above, for F raw
 
-   Neither can be inhabited by an arbitrary proposition: both need a function
-   into `outcome`, an input on which the unguarded operation panics, and a
-   no-panic proof.  The other three constructors carry NO theorem:
+   Neither can be inhabited without a function that calls the operation on
+   some input and never lets it panic.  What the type does NOT say: that op /
+   raw / F are the right transcriptions of the Go source (read off the source),
+   and - for CModel - nothing beyond f being a function of the model (it is
+   tied to the code by the correspondence run).  The other three constructors
+   carry NO theorem:
 
      CArgued w       argued in prose (w).  Used for: constant bounds, static
                      types, values tink-go built itself, range loops; sites whose
                      model function has no Panic constructor to reach (nil-safe
                      getters = total getters of the model, length tests in front
-                     of library calls); integer conversions, which wrap rather
-                     than panic (the comparisons after them are theorem
-                     C14_wrapping_conversions_are_rejected, named in w, not
-                     checked by the table)
+                     of library calls); sites whose only checked operation sits
+                     inside a callee that has its own entry (the parsers calling
+                     fixed_size); guards established by another function; integer
+                     conversions, which wrap rather than panic (the comparisons
+                     after them are theorem C14_wrapping_conversions_are_rejected,
+                     named in w, not checked by the table)
      CStdlib w       inside the Go standard library; w names the trusted behaviour
      CHarnessOnly w  only the harness decides (PANIC observation = violation) *)
 From Coq Require Import String List.
@@ -76,9 +95,14 @@ Inductive site_kind :=
 
 Inductive coverage : Type :=
 | CModel {X Y A B : Type} (op : X -> outcome Y) (w : exists x, op x = Panic)
-         (f : A -> outcome B) (pf : forall a, f a <> Panic)
-| CLemma {A B : Type} (raw : A -> outcome B) (w : exists a, raw a = Panic)
-         (guard : A -> Prop) (pf : forall a, guard a -> raw a <> Panic)
+         (F : (X -> outcome Y) -> A -> outcome B)
+         (reach : exists a, F (fun _ => Panic) a = Panic)
+         (f : A -> outcome B) (same : forall a, F op a = f a)
+         (pf : forall a, f a <> Panic)
+| CLemma {X Y A B : Type} (raw : X -> outcome Y) (w : exists x, raw x = Panic)
+         (F : (X -> outcome Y) -> A -> outcome B)
+         (reach : exists a, F (fun _ => Panic) a = Panic)
+         (pf : forall a, F raw a <> Panic)
 | CArgued (why : string)
 | CStdlib (trusted : string)
 | CHarnessOnly (exercised_by : string).
@@ -88,8 +112,8 @@ Record site := mkSite {
   s_guard : string;      (* documentation: the check in front of the expression, verbatim *)
   s_cov : coverage }.
 
-Definition by_model_theorem (s : site) : bool := match s_cov s with CModel _ _ _ _ => true | _ => false end.
-Definition by_site_lemma (s : site) : bool := match s_cov s with CLemma _ _ _ _ => true | _ => false end.
+Definition by_model_theorem (s : site) : bool := match s_cov s with CModel _ _ _ _ _ _ _ => true | _ => false end.
+Definition by_site_lemma (s : site) : bool := match s_cov s with CLemma _ _ _ _ _ => true | _ => false end.
 Definition argued_only (s : site) : bool := match s_cov s with CArgued _ => true | _ => false end.
 Definition is_stdlib (s : site) : bool := match s_cov s with CStdlib _ => true | _ => false end.
 Definition is_harness_only (s : site) : bool := match s_cov s with CHarnessOnly _ => true | _ => false end.
